@@ -266,6 +266,7 @@ Proof.
   - (* task, sender step *)
     apply in_del_key in Hin. destruct Hin as [Hin Hne]. cbn in Hne. destruct (Hreg _ _ Hin) as [Hl'|Hr]; [now left | right].
     destruct Hr as [Hr|Hr]; [left; simp; exact Hr | right]. simp. eapply in_del_nth_keep; eauto. congruence.
+  - (* add sender, failed: there are no senders *) rewrite H2 in Hin. destruct Hin.
 Qed.
 
 (* how `subscriptions` can change in one step *)
@@ -291,6 +292,7 @@ Proof.
     + apply lookup_put_same.
     + reflexivity.
     + intros r Hne. now apply lookup_put_other.
+  - (* add sender, failed: the entry is taken back *) left. intros r0 e' He'. apply in_del_lookup in He'. eauto.
 Qed.
 
 Lemma g_entry_step s l s' : tstep s l s' -> Inv s -> forall r e, lookup (subs s') r = Some e -> 2 <= e_ch e < length (chans s').
@@ -381,6 +383,7 @@ Proof.
   - (* task, sender *) left. split; [intros sid0 r0 c0; apply a2_ext; simp; reflexivity|]. intros r' c' [(sid' & st' & Hd' & Hs' & Hr')|Hr]; [left | right]; simp.
     + exists sid', st'. tauto.
     + eapply in_del_nth; eassumption.
+  - (* add sender, failed *) left. split; [|intros; assumption]. intros sid' r' c' Ha. eapply a2_del in Ha; [apply Ha | reflexivity].
 Qed.
 
 Lemma g_excl_step s l s' : tstep s l s' -> Inv s -> forall sid r c r' c', a2 s' sid r c -> r1 s' r' c' -> False.
@@ -471,6 +474,7 @@ Proof.
   - destruct (Nat.eq_dec sid0 sid) as [->|Hne]; [apply lookup_del_same | rewrite lookup_del_other by assumption; exact (Hold _ _ Ha)].
   - rm_tables. rewrite Eadd in Ha. rewrite Estr. exact (Hold _ _ Ha).
   - rm_tables. rewrite Eadd in Ha. rewrite Estr. exact (Hold _ _ Ha).
+  - (* add sender, failed *) destruct (Nat.eq_dec sid0 sid) as [->|Hne]; [now rewrite lookup_del_same in Ha|]. rewrite lookup_del_other in Ha by assumption. exact (Hold _ _ Ha).
 Qed.
 
 Theorem G1_step s l s' : tstep s l s' -> Inv s -> G1 s'.
